@@ -43,8 +43,43 @@ def reduced_alphabet(e):
     return [e[0] / 2, float(e[0]), float((e[0] + e[1]) / 2), float(np.nextafter(e[-1], -np.inf)), float(e[-1])]
 
 
+def check_big(case):
+    from emd.spectra import holospectrum, define_hist_bins
+    _, B1, B2, T, M, K, seed = case
+    e1 = define_hist_bins(2.0, 66.0, B1)[0]
+    e2 = define_hist_bins(0.25, 16.0, B2, scale='log')[0]
+    t = np.arange(T)[:, None, None]
+    m = np.arange(M)[None, :, None]
+    k = np.arange(K)[None, None, :]
+    infr = 1.0 + ((t[:, :, 0] * (3 + m[:, :, 0]) + 5 * m[:, :, 0] + seed) % 700) / 10.0
+    infr = np.where((t[:, :, 0] + m[:, :, 0]) % 9 == 0, e1[(t[:, :, 0] + m[:, :, 0]) % len(e1)], infr)
+    infr2 = 0.1 + ((t * (2 + k) + 7 * m + 3 * k + seed) % 400) / 20.0
+    infr2 = np.where((t + k) % 11 == 0, e2[(t + m + k) % len(e2)] + 0 * infr2, infr2)
+    amp = 1.0 + ((t + 2 * m + 3 * k) % 8) + 0 * infr2
+    viols = []
+    b1 = np.digitize(infr, e1) - 1
+    b2 = np.digitize(infr2, e2) - 1
+    ok = ((infr >= e1[0]) & (infr < e1[-1]))[:, :, None] & (infr2 >= e2[0]) & (infr2 < e2[-1])
+    for mode in ('energy', 'amplitude'):
+        v = amp ** 2 if mode == 'energy' else amp
+        exp = np.zeros((T, B2, B1))
+        tt, mm, kk = np.where(ok)
+        np.add.at(exp, (tt, b2[tt, mm, kk], b1[tt, mm]), v[tt, mm, kk])
+        for sq, want in ((False, exp), ('sum', exp.sum(axis=0)), ('mean', exp.mean(axis=0))):
+            try:
+                got = np.asarray(holospectrum(infr.copy(), infr2.copy(), amp.copy(), e1.copy(), e2.copy(), mode=mode, squash_time=sq))
+            except Exception as ex:
+                viols.append(('big:raise:%s' % type(ex).__name__, 'large instance %r raised %r' % (case, ex)))
+                continue
+            if got.shape != want.shape or not np.allclose(got, want, rtol=1e-12, atol=0):
+                viols.append(('big:value:%s' % sq, 'large instance %r mode=%s squash=%r differs from the per-sample histogram' % (case, mode, sq)))
+    return Outcome(cls='mixed', transitions=6, viols=viols, nontrivial=True)
+
+
 def cases(tier, seed):
     b = bounds(tier)
+    for B1, B2 in ((5, 4), (40, 12), (130, 3)):
+        yield ('big', B1, B2, 1200, 3, 4, seed)
     for B1 in b['B1']:
         for B2 in b['B2']:
             n1, n2 = 3 * B1 + 5, 3 * B2 + 5
@@ -70,6 +105,8 @@ def cases(tier, seed):
 
 def decode_case(c):
     c = list(c)
+    if c[0] == 'big':
+        return tuple(c)
     c[3] = tuple(c[3])
     c[4] = tuple(c[4])
     c[5] = tuple(c[5])
@@ -107,6 +144,8 @@ def brute(e1, e2, infr, infr2, amp, mode):
 
 def check_case(case):
     from emd.spectra import holospectrum
+    if case[0] == 'big':
+        return check_big(case)
     e1, e2, infr, infr2, amp = build(case)
     T, M, K = infr2.shape
     B1, B2 = len(e1) - 1, len(e2) - 1
@@ -168,6 +207,8 @@ def describe(case):
 
 
 def snippet(case, kind):
+    if case[0] == 'big':
+        return None
     e1, e2, infr, infr2, amp = build(case)
     return ('import numpy as np, emd\n'
             'e1 = np.array(%r); e2 = np.array(%r)\n'
